@@ -100,3 +100,67 @@ def poo_consts(rhomax, kmax=8, S=1 << 20, nmax=1 << 22):
         N = 1 << k
         rho.append([fxr(dpow(rhomax, Decimal(2 * N) / Decimal(2 * p + 1)), S) for p in range(N)] if k <= 7 else [])
     return {"thr": thr, "rho": rho, "amb": amb, "S": S, "kmax": kmax}
+
+
+# ---------------------------------------------------------------------------
+def tb_consts(algo, nu, rho, rounds=None, c=None, delta=None, bound=None, H=48, KE=13, RU=64, maxcnt=600, rmax=1.0):
+    """tables for TreeBandit.tla.  Returns None if the configuration cannot be represented
+    (delta~ not below 1/2, fixed point would overflow, a table entry ambiguous)."""
+    nu, rho = D(nu), D(rho)
+    out = {"amb": 0}
+    for Sexp in (13, 12, 11, 10, 9):
+        S = 1 << Sexp
+        ok = True
+        # mean: |sum| * S must stay below 2^31
+        if maxcnt * rmax * RU * S >= 2 ** 31 - 1:
+            ok = False
+        nurho = [fxr(nu * dpow(rho, h), S) for h in range(H + 1)]
+        if nurho[0] >= 10 ** 9:
+            ok = False
+        tabs = {}
+        if algo == "THOO":
+            w2 = D(2) * ln(rounds) * S * S
+            if w2 >= Decimal(15) * 10 ** 8:
+                ok = False
+            tabs["w2"] = int(w2.to_integral_value(rounding=ROUND_HALF_EVEN))
+            x = (ln(rounds) / 2 - ln(1 / nu)) / ln(1 / rho)
+            if near_int(x):
+                out["amb"] = 1
+            tabs["dbound"] = dceil(x)
+        else:
+            c_, delta_ = D(c), D(delta)
+            c1 = dpow(rho / (3 * nu), Decimal(1) / 8)
+            if c1 * delta_ >= Decimal("0.5"):
+                return None
+            c2l, c2ls, b3, tau = [], [], [], []
+            for k in range(KE + 1):
+                dt = c1 * delta_ / (1 << k)
+                L = (1 / dt).ln()
+                v = c_ * c_ * L
+                if v * S * S >= Decimal(15) * 10 ** 8:
+                    ok = False
+                c2l.append(int((v * S * S).to_integral_value(rounding=ROUND_HALF_EVEN)))
+                c2ls.append(int((v * S).to_integral_value(rounding=ROUND_HALF_EVEN)))
+                if algo == "VHCT":
+                    bb = 3 * D(bound) * v * S
+                    if bb >= Decimal(15) * 10 ** 8:
+                        ok = False
+                    b3.append(int(bb.to_integral_value(rounding=ROUND_HALF_EVEN)))
+                row = [0]
+                for h in range(1, H + 1):
+                    t = v * dpow(rho, -2 * h) / (nu * nu)
+                    if t < 10 ** 7 and near_int(t):
+                        out["amb"] = 1
+                    row.append(min(BIG, dceil(t)) if t < BIG else BIG)
+                tau.append(row)
+            tabs.update({"c2l": c2l, "tau": tau})
+            if algo == "VHCT":
+                # 2*var*c2ls must fit: var <= rmax^2 S
+                if 2 * (rmax * rmax * S + 1) * max(c2ls) >= 2 ** 31 - 1:
+                    ok = False
+                tabs.update({"c2ls": c2ls, "b3": b3, "vmin": fxr(Decimal("0.001"), S), "nb": [fxr(3 * D(bound) * nu * dpow(rho, h), S) for h in range(H + 1)]})
+        if ok:
+            out.update(tabs)
+            out.update({"S": S, "RU": RU, "nurho": nurho})
+            return out
+    return None
